@@ -263,6 +263,29 @@ def check_bytes(ctx):
     ctx.check(n >= 6, inst, "anchor", "-", "cache_memory writers (>= 6, found %d)" % n, None)
 
 
+def check_watermarks(ctx):
+    """eviction aims at the low watermark and is triggered above the high one: a reconfiguration keeps low < high <= the cache
+    ceiling and stores each figure into its own field"""
+    inst = "C16.watermarks"
+    b = ctx.fn("ClockCache::adjust_watermarks", inst)
+    if b is None:
+        return
+    def on(name):
+        return lambda bb, n: R.recv_expr(bb, n).has_field("ClockCache", name)
+    hi = ctx.sites(b, R.call("Atomic::store", "AtomicUsize::store").filter(on("high_watermark"), "high_watermark.store"), inst, exact=1)
+    lo = ctx.sites(b, R.call("Atomic::store", "AtomicUsize::store").filter(on("low_watermark"), "low_watermark.store"), inst, exact=1)
+    for x, argi, nm in ((hi, 2, "high"), (lo, 3, "low")):
+        for s_ in x:
+            v = R.arg_expr(b, b.nodes[s_], 1)
+            ctx.check(v.has_arg(idx=argi) and not v.has_arg(idx=5 - argi), inst, "PROVENANCE", b.path, "the %s watermark receives the %s argument" % (nm, nm), b.where(s_), {"value": v.show()[:60]})
+    def gt(e):
+        return e.k == "bin" and e.extra == "Lt" and e.a[0].has_arg(idx=3) and e.a[1].has_arg(idx=2)      # low < high
+    def cap(e):
+        return e.k == "bin" and e.extra == "Lt" and e.a[0].has_const(name="CACHE_MAX_SIZE") and e.a[1].has_arg(idx=2)   # !(MAX < high)
+    R.guard(ctx, inst, b, hi + lo, A.pred_edges(b, gt, "true"), "watermarks change only when low < high (strict)")
+    R.guard(ctx, inst, b, hi + lo, A.pred_edges(b, cap, "false"), "and high does not exceed CACHE_MAX_SIZE")
+
+
 def check_blocking_locks(ctx):
     """a removal / invalidation that gives up when the bucket is busy leaves the replaced generation cached: every cache
     operation except the opportunistic eviction sweep takes its bucket lock with a blocking acquisition"""
@@ -330,6 +353,7 @@ def check_sweep(ctx):
 
 
 def check(ctx):
+    check_watermarks(ctx)
     check_blocking_locks(ctx)
     check_sweep(ctx)
     check_keyed(ctx)
